@@ -276,6 +276,8 @@ func commonAssumptions() []string {
 // implementation and reported by each property it matters to.
 var borrowCache = map[string]*Ctx{}
 
+var borrowing = map[string]bool{}
+
 func (c *Ctx) Borrow(from string, rename map[string]string, why string) {
 	pd := props[from]
 	if pd == nil {
@@ -284,7 +286,13 @@ func (c *Ctx) Borrow(from string, rename map[string]string, why string) {
 	}
 	key := from + "/" + c.Tier
 	child := borrowCache[key]
+	if child == nil && borrowing[key] {
+		c.Unresolved(c.Prop+".borrow", "cyclic borrow through "+from)
+		return
+	}
 	if child == nil {
+		borrowing[key] = true
+		defer delete(borrowing, key)
 		child = NewCtx(c.P, from, c.Tier)
 		pd.Run(child)
 		borrowCache[key] = child
